@@ -287,12 +287,14 @@ type feat struct {
 	Sym      bool   `json:"sym"`       // refs/x/sym (symbolic ref under refs/) in the universe
 	RmPeeled bool   `json:"rm_peeled"` // may remove refs whose packed record has a peel line
 	CasMiss  bool   `json:"cas_miss"`  // may issue failing CAS on names without a loose file
+	ManySyms bool   `json:"many_syms"` // several symbolic refs under refs/ (in different directories, one nested) and few direct refs
 	CasSym   bool   `json:"cas_sym"`   // may issue CAS with a symbolic old value whose target differs
 	GitOps   bool   `json:"git_ops"`   // interleave git pack-refs/update-ref
 	Format   string `json:"format"`
 }
 
 type seq struct {
+	forced     []string // follow-up op kinds queued by the generator ("set-direct", "pack")
 	c          *vf.Ctx
 	g          *gitx.Git
 	p          *pool
@@ -361,9 +363,28 @@ func fromRef(r *plumbing.Reference) refmodel.Ref {
 }
 
 // randomValue picks a valid value for name.
+// extraSyms are further symbolic refs under refs/: next to branches, below refs/remotes, nested
+// below the directory that holds refs/x/sym, and in a directory that sorts last.
+var extraSyms = []string{"refs/heads/sym1", "refs/remotes/o/HEAD", "refs/x/y/sym3", "refs/zz/sym4"}
+
+func isExtraSym(name string) bool {
+	for _, n := range extraSyms {
+		if n == name {
+			return true
+		}
+	}
+	return false
+}
+
 func (s *seq) randomValue(name string) refmodel.Ref {
 	r := s.r
 	switch {
+	case isExtraSym(name):
+		if r.Intn(10) == 0 {
+			return refmodel.Ref{Name: name, Hash: s.p.commits[r.Intn(len(s.p.commits))]}
+		}
+		t := []string{"refs/heads/a", "refs/heads/b", "refs/tags/t", "refs/heads/master"}
+		return refmodel.Ref{Name: name, Sym: true, Target: t[r.Intn(len(t))]}
 	case name == "HEAD":
 		if r.Intn(4) == 0 {
 			return refmodel.Ref{Name: name, Hash: s.p.commits[r.Intn(len(s.p.commits))]}
@@ -414,6 +435,9 @@ func (s *seq) setupStart() {
 	r := s.r
 	kinds := []string{"empty", "git-loose", "git-packed", "git-packed+loose", "git-packed-noprune", "reheadered"}
 	s.start = kinds[r.Intn(len(kinds))]
+	if s.f.ManySyms && r.Intn(100) < 50 {
+		s.start = kinds[r.Intn(2)] // empty | git-loose: nothing is packed-only when the first PackRefs runs
+	}
 	s.m = refmodel.RefMap{"HEAD": {Name: "HEAD", Sym: true, Target: "refs/heads/master"}}
 	if s.start == "empty" {
 		return
@@ -423,7 +447,14 @@ func (s *seq) setupStart() {
 		var hashRefs, symRefs []refmodel.Ref
 		trial := s.m.Clone()
 		for _, n := range s.uni {
-			if r.Intn(100) >= prob {
+			pr := prob
+			if s.f.ManySyms && n != "HEAD" {
+				pr = prob / 3 // few direct refs ...
+				if isExtraSym(n) || n == "refs/x/sym" {
+					pr = 85 // ... and most of the symbolic ones
+				}
+			}
+			if r.Intn(100) >= pr {
 				continue
 			}
 			v := s.randomValue(n)
@@ -431,6 +462,14 @@ func (s *seq) setupStart() {
 				continue
 			}
 			trial.Set(v)
+			if v.Sym && isExtraSym(n) {
+				// the bytes `git symbolic-ref` writes; the start state as a whole is validated against git below
+				path := filepath.Join(s.gitdir, filepath.FromSlash(n))
+				s.c.Must(os.MkdirAll(filepath.Dir(path), 0o755), "mkdir for symbolic ref")
+				s.c.Must(os.WriteFile(path, []byte("ref: "+v.Target+"\n"), 0o644), "write symbolic ref")
+				s.m.Set(v)
+				continue
+			}
 			if v.Sym || n == "HEAD" {
 				symRefs = append(symRefs, v) // one git call each (HEAD cannot share a transaction with its referent)
 			} else {
@@ -740,6 +779,31 @@ func (o op) String() string {
 	return o.kind
 }
 
+// nextOp draws the next op. In many-symbolic-refs histories PackRefs is aimed at moments when
+// only one or two direct refs are loose: right after a PackRefs plus one Set, and after removals.
+func (s *seq) nextOp(d *disk) op {
+	if len(s.forced) > 0 {
+		k := s.forced[0]
+		s.forced = s.forced[1:]
+		if k == "pack" {
+			return op{kind: "pack"}
+		}
+		direct := []string{"refs/heads/a", "refs/heads/b", "refs/tags/t", "refs/tags/t2"}
+		name := direct[s.r.Intn(len(direct))]
+		return op{kind: "set", name: name, val: s.randomValue(name)}
+	}
+	o := s.pickOp(d)
+	if s.f.ManySyms {
+		switch {
+		case o.kind == "pack" && s.r.Intn(100) < 50:
+			s.forced = append(s.forced, "set-direct", "pack")
+		case o.kind == "remove" && s.r.Intn(100) < 40:
+			s.forced = append(s.forced, "pack")
+		}
+	}
+	return o
+}
+
 func (s *seq) pickOp(d *disk) op {
 	r := s.r
 	for tries := 0; tries < 50; tries++ {
@@ -777,6 +841,19 @@ func (s *seq) pickOp(d *disk) op {
 			o.cas = s.m.CAS(*o.old)
 			return o
 		case x < 68:
+			if s.f.ManySyms && r.Intn(2) == 0 {
+				// prefer a packed-only name: fewer packed-only refs at the next PackRefs
+				var po []string
+				for _, n := range s.uni {
+					if d.class(n) == "packed" || d.class(n) == "packed+peel" {
+						po = append(po, n)
+					}
+				}
+				if len(po) > 0 {
+					name = po[r.Intn(len(po))]
+					_, present = s.m[name]
+				}
+			}
 			if name == "HEAD" {
 				continue
 			}
@@ -898,6 +975,30 @@ func (s *seq) apply(o op, pre *disk) (*failure, string) {
 		}
 		s.m.Remove(o.name)
 	case "pack":
+		// evidence: how often PackRefs runs while loose symbolic refs under refs/ outnumber the
+		// direct loose refs plus the packed-only refs
+		nsym, ndirect, npackedOnly := 0, 0, 0
+		for n, v := range pre.loose {
+			if n == "HEAD" {
+				continue
+			}
+			if strings.HasPrefix(v, "ref: ") {
+				nsym++
+			} else {
+				ndirect++
+			}
+		}
+		for _, rec := range pre.recs {
+			if _, l := pre.loose[rec.name]; !l {
+				npackedOnly++
+			}
+		}
+		if nsym > 0 && ndirect > 0 {
+			s.c.Count("packs_with_loose_symbolic_and_direct_refs", 1)
+			if nsym > ndirect+npackedOnly {
+				s.c.Count("packs_with_symbolic_refs_outnumbering_direct_and_packed_only", 1)
+			}
+		}
 		if f := run(func() error { return s.st.PackRefs() }); f != nil {
 			return f, cls
 		}
@@ -1052,6 +1153,9 @@ func (s *seq) run() {
 	if s.f.Sym {
 		s.uni = append(s.uni, "refs/x/sym")
 	}
+	if s.f.ManySyms {
+		s.uni = append(s.uni, extraSyms...)
+	}
 	s.setupStart()
 	c.Seen("start_kinds", s.start)
 	s.open()
@@ -1074,7 +1178,7 @@ func (s *seq) run() {
 	n := 6 + s.r.Intn(35)
 	pre := d0
 	for i := 0; i < n; i++ {
-		o := s.pickOp(pre)
+		o := s.nextOp(pre)
 		s.log = append(s.log, o.String())
 		f, cls := s.apply(o, pre)
 		s.shape = append(s.shape, o.kind+":"+cls)
@@ -1133,12 +1237,16 @@ func run(c *vf.Ctx) {
 			Sym:      r.Intn(100) < 55,
 			RmPeeled: r.Intn(100) < 80,
 			CasMiss:  r.Intn(100) < 50,
+			ManySyms: r.Intn(100) < 35,
 			CasSym:   r.Intn(100) < 25,
 			GitOps:   r.Intn(100) < 50,
 			Format:   "sha1",
 		}
 		if r.Intn(100) < 20 {
 			f.Format = "sha256"
+		}
+		if f.ManySyms {
+			f.Sym = true
 		}
 		s := &seq{c: c, g: g, p: pools[f.Format], r: r, idx: i, f: f}
 		c.Seen("formats", f.Format)
@@ -1153,6 +1261,8 @@ func run(c *vf.Ctx) {
 	c.Floor("go-git reads compared with the map", c.Counter("reads"), nSeq*50)
 	c.Floor("git views agreeing with the map", c.Counter("git_views_agreeing"), nSeq*2)
 	c.Floor("go-git PackRefs calls", c.Counter("op_pack"), nSeq/2)
+	c.Floor("PackRefs with loose symbolic and direct refs", c.Counter("packs_with_loose_symbolic_and_direct_refs"), nSeq/3)
+	c.Floor("PackRefs while loose symbolic refs outnumber direct loose + packed-only refs", c.Counter("packs_with_symbolic_refs_outnumbering_direct_and_packed_only"), nSeq/10)
 	c.Floor("distinct (op, on-disk class) pairs", c.SeenCount("op_x_class"), 25)
 	c.Floor("start kinds", c.SeenCount("start_kinds"), 6)
 	c.Assume("RemoveReference(HEAD) is outside the domain: git does not recognise a directory without HEAD as a repository")
